@@ -1,6 +1,7 @@
 import Yaep.Lemmas.Trees
 import Yaep.Lemmas.Chart
 import Yaep.Lemmas.DepthBound
+import Yaep.Lemmas.Translate
 import Yaep.Lemmas.Analysis
 import Yaep.Lemmas.Examples
 /-!
@@ -440,6 +441,165 @@ example : ptL 11 ∉ derivations gLoop toksL := fun h => by
   have := ((derivations_spec gLoop toksL (ptL 11)).1 h).2
   rw [ptL_depth] at this
   exact absurd this (by decide)
+
+end C02Ex
+
+/-! ## what "the tree is the translation of a derivation" says
+
+The judge checks `tree ∈ (derivationsP g toks).map (translate g)`.  By `derivationsP_spec`
+(`derivationsP_complete` without cycles) this is: the tree is `translate g pt` for a
+derivation `pt` of the whole input.  The theorems of this section spell out what
+`translate g pt` looks like, under the decidable well-formedness `Grammar.translWF` of the
+translation parts of the rules — which every grammar accepted by `readGrammar` has
+(`readGrammar_translWF`). -/
+
+/-- membership in the list the judge computes -/
+theorem mem_translations_iff (g : Grammar) (toks : List Nat) (tree : Tree) :
+    tree ∈ (derivationsP g toks).map (translate g) ↔
+      ∃ pt, (PT.IsDerivation g toks pt ∧ pt.depth ≤ g.derivFuel toks.length) ∧
+        translate g pt = tree := by
+  simp only [List.mem_map, derivationsP_spec]
+
+/-- … for a grammar without cycles: the tree is the translation of some derivation -/
+theorem mem_translations_iff_acyclic {g : Grammar} {toks : List Nat} (hc : ¬ Cyclic g)
+    (hr : g.symsInRange = true) (tree : Tree) :
+    tree ∈ (derivationsP g toks).map (translate g) ↔
+      ∃ pt, PT.IsDerivation g toks pt ∧ translate g pt = tree := by
+  simp only [List.mem_map, derivationsP_complete hc hr]
+
+/-- every grammar `readGrammar` accepts has well-formed translations: one `order` entry per
+right-hand-side symbol, slots below `transLen`, no slot used twice, at most one translated
+position in a rule without abstract node -/
+theorem readGrammar_translWF {raw : RawGrammar} {g : Grammar} (h : readGrammar raw = .ok g) :
+    g.translWF = true :=
+  readGrammar_translWF_aux h
+
+/-- `Grammar.translWF`, spelled out for one rule -/
+theorem translWF_rule {g : Grammar} (h : g.translWF = true) {r : Nat} {rl : Rule}
+    (hr : g.rules[r]? = some rl) :
+    rl.order.length = rl.rhs.length ∧
+    (∀ (p s : Nat), rl.order[p]? = some (some s) → s < rl.transLen) ∧
+    (∀ (p q s : Nat), rl.order[p]? = some (some s) → rl.order[q]? = some (some s) → p = q) ∧
+    (rl.anode = none → ∀ (p q s s' : Nat), rl.order[p]? = some (some s) →
+      rl.order[q]? = some (some s') → p = q) :=
+  let h' := Grammar.translWF_rule h hr
+  ⟨h'.len, h'.slot_lt, h'.inj, h'.single⟩
+
+/-- Every TERM node of the translation carries the code of an input token and, as its
+attribute, the position of that token (the harness passes the position as the attribute
+pointer); `error` tokens are never TERM nodes. -/
+theorem translate_term_attr {g : Grammar} {toks : List Nat} {pt : PT}
+    (h : PT.IsDerivation g toks pt) {c a : Int} (hx : (c, a) ∈ (translate g pt).terms) :
+    ∃ k t : Nat, a = (k : Int) ∧ toks[k]? = some t ∧ t ≠ g.errT ∧ g.termCodes.getD t 0 = c := by
+  obtain ⟨k, t, h1, _, _, h2, h3, h4⟩ := terms_of_valid pt h c a hx
+  exact ⟨k, t, h1, h2, h3, h4⟩
+
+/-- No input token is translated twice: the positions of the TERM nodes of one translation
+tree are pairwise different.  (This needs no hypothesis on the grammar: a slot takes one
+child, and different slots take different children.) -/
+theorem translate_terms_nodup_positions {g : Grammar} {toks : List Nat} {pt : PT}
+    (h : PT.IsDerivation g toks pt) : ((translate g pt).terms.map (·.2)).Nodup :=
+  terms_positions_nodup pt h
+
+/-- the children of a rule application: as many as the rule has right-hand-side symbols -/
+theorem validNode_kids_length {g : Grammar} {toks : List Nat} {r A i j : Nat} {kids : List PT}
+    (h : PT.ValidAt g toks (.node r kids) (.n A) i j) :
+    ∃ rl, g.rules[r]? = some rl ∧ rl.lhs = A ∧ kids.length = rl.rhs.length := by
+  cases h with
+  | node e hl v => exact ⟨_, e, hl, v.length_eq⟩
+
+/-- A rule with an abstract node translates to that node: the rule's name and cost, exactly
+`transLen` children; child `s` is the translation of the right-hand-side position mapped to
+slot `s` (there is at most one) and NIL if no position is mapped to it. -/
+theorem translate_anode_shape {g : Grammar} (hwf : g.translWF = true) {r : Nat} {rl : Rule}
+    {name : String} (hr : g.rules[r]? = some rl) (ha : rl.anode = some name) (kids : List PT) :
+    ∃ slots, translate g (.node r kids) = .anode name rl.cost slots ∧
+      slots.length = rl.transLen ∧
+      (∀ (p s : Nat) (k : PT), rl.order[p]? = some (some s) → kids[p]? = some k →
+        slots[s]? = some (translate g k)) ∧
+      (∀ s : Nat, s < rl.transLen → (∀ p : Nat, rl.order[p]? ≠ some (some s)) →
+        slots[s]? = some .nil) := by
+  have hok := Grammar.translWF_rule hwf hr
+  refine ⟨fillSlots rl.order (kids.map (translate g)) rl.transLen, ?_, fillSlots_length _ _ _,
+    ?_, ?_⟩
+  · rw [translate_node hr, translateRule_abstract ha]
+  · intro p s k hp hk
+    rw [fillSlots_slot_unique (hok.slot_lt p s hp) hp (fun q hq => hok.inj q p s hq hp),
+      getD_map_translate hk]
+  · intro s hs hn
+    exact fillSlots_slot_nil hs hn
+
+/-- A rule without abstract node passes the translation of its single translated
+right-hand-side position through, and translates to NIL if it has none. -/
+theorem translate_passthrough {g : Grammar} (hwf : g.translWF = true) {r : Nat} {rl : Rule}
+    (hr : g.rules[r]? = some rl) (ha : rl.anode = none) (kids : List PT) :
+    (∀ (p s : Nat) (k : PT), rl.order[p]? = some (some s) → kids[p]? = some k →
+      translate g (.node r kids) = translate g k) ∧
+    ((∀ (p s : Nat), rl.order[p]? ≠ some (some s)) → translate g (.node r kids) = .nil) := by
+  have hok := Grammar.translWF_rule hwf hr
+  constructor
+  · intro p s k hp hk
+    rw [translate_node hr, translateRule_pass (p := p) ha, getD_map_translate hk]
+    refine ⟨⟨s, hp⟩, ?_⟩
+    intro q hq s' hq'
+    have := hok.single ha q p s' s hq' hp
+    omega
+  · intro hn
+    rw [translate_node hr, translateRule_empty ha hn]
+
+namespace C02Ex
+
+example : g.translWF = true := by decide
+/-- the description `rawPlus` is accepted, hence its internal grammar has well-formed
+translations -/
+example : ∃ g', readGrammar rawPlus = .ok g' ∧ g'.translWF = true :=
+  ⟨_, rfl, readGrammar_translWF (raw := rawPlus) rfl⟩
+example : g.rules[1].order.length = g.rules[1].rhs.length :=
+  (translWF_rule (g := g) (by decide) (r := 1) rfl).1
+example : Tree.anode "plus" 1 [.term 97 0, .nil, .term 97 2] ∈
+    (derivationsP g toks).map (translate g) :=
+  (mem_translations_iff g toks _).mpr ⟨pt, ⟨valid, by decide⟩, rfl⟩
+example : ∃ t, PT.IsDerivation g toks t ∧
+    translate g t = .anode "plus" 1 [.term 97 0, .nil, .term 97 2] :=
+  (mem_translations_iff_acyclic g_acyclic (by decide) _).mp
+    ((mem_translations_iff g toks _).mpr ⟨pt, ⟨valid, by decide⟩, rfl⟩)
+example : (translate g pt).terms = [(97, 0), (97, 2)] := by decide
+/-- the TERM node `(97, 2)` is the token `a` at position 2 -/
+example : ∃ k t : Nat, (2 : Int) = (k : Int) ∧ toks[k]? = some t ∧ t ≠ g.errT ∧
+    g.termCodes.getD t 0 = 97 :=
+  translate_term_attr (g := g) (pt := pt) valid (c := 97) (a := 2) (by decide)
+example : ((translate g pt).terms.map (·.2)).Nodup := translate_terms_nodup_positions valid
+example : ∃ rl, g.rules[1]? = some rl ∧ rl.lhs = 1 ∧ [a 0, PT.leaf 3 1, a 2].length = rl.rhs.length :=
+  validNode_kids_length (toks := toks) (i := 0) (j := 3)
+    (.node (rl := g.rules[1]) rfl rfl validKids)
+/-- the shape of the `plus` node: three children, operands in slots 0 and 2, NIL in slot 1 -/
+example : ∃ slots, translate g (.node 1 [a 0, .leaf 3 1, a 2]) = .anode "plus" 1 slots ∧
+    slots.length = 3 ∧ slots[0]? = some (translate g (a 0)) ∧ slots[1]? = some .nil ∧
+    slots[2]? = some (translate g (a 2)) := by
+  obtain ⟨slots, h1, h2, h3, h4⟩ := translate_anode_shape (g := g) (by decide) (r := 1)
+    (name := "plus") rfl rfl [a 0, .leaf 3 1, a 2]
+  refine ⟨slots, h1, h2, h3 0 0 (a 0) rfl rfl, h4 1 (by decide) ?_, h3 2 2 (a 2) rfl rfl⟩
+  intro p hp
+  match p, hp with
+  | 0, h => cases h
+  | 1, h => cases h
+  | 2, h => cases h
+  | n + 3, h => cases h
+/-- `E : 'a'` passes the TERM node through; `$S : E $eof` passes `E` through -/
+example : translate g (a 2) = translate g (.leaf 2 2) :=
+  (translate_passthrough (g := g) (by decide) (r := 2) rfl rfl [.leaf 2 2]).1 0 0 _ rfl rfl
+example : translate g pt = translate g (.node 1 [a 0, .leaf 3 1, a 2]) :=
+  (translate_passthrough (g := g) (by decide) (r := 0) rfl rfl _).1 0 0 _ rfl rfl
+/-- a rule whose translation is empty gives NIL -/
+example : translate gNil (.node 0 [.leaf 2 0]) = .nil :=
+  (translate_passthrough (g := gNil) (by decide) (r := 0) rfl rfl [.leaf 2 0]).2 (by
+    intro p s hp
+    match p, hp with
+    | 0, h => cases h
+    | n + 1, h => cases h)
+/-- a hand-made rule that uses a slot twice is not `translWF` (`readGrammar` rejects such a
+description with code 13) -/
+example : (Rule.mk 1 [.t 2, .t 2] (some "n") 0 1 [some 0, some 0]).translWF = false := by decide
 
 end C02Ex
 
